@@ -381,6 +381,32 @@ func TestDirDom(t *testing.T) {
 		return domCase{G: g, Root: rapid.IntRange(0, max(g.N-1, 0)).Draw(t, "root")}
 	}
 	vk.Run(t, "dir-dom", vk.Opts{Quick: 8000, Thorough: 150000, NoCrumb: true}, draw, checkDom)
+	// Larger flow graphs (50..300 nodes, every node reachable from node 0, long
+	// DFS chains plus back and cross arcs): these exercise path compression and
+	// the size-balanced linking of the two Lengauer-Tarjan variants. The arc list
+	// is expanded from a drawn seed but stored in the case.
+	vk.Run(t, "dir-dom-big", vk.Opts{Quick: 300, Thorough: 6000, NoCrumb: true}, func(t *rapid.T) domCase {
+		n := rapid.IntRange(50, 300).Draw(t, "n")
+		chain := rapid.IntRange(0, 100).Draw(t, "chainpct")
+		extra := rapid.IntRange(0, 3*n).Draw(t, "extra")
+		r := vk.NewSplitMix(rapid.Uint64().Draw(t, "seed"))
+		g := G{N: n, Dir: true, Cls: "flowlike", IDs: rapid.IntRange(0, 2).Draw(t, "ids"), Ord: r.Uint64(),
+			Cont: rapid.SampledFrom([]int{contOrdered, contSimple}).Draw(t, "cont")}
+		for v := 1; v < n; v++ {
+			u := v - 1
+			if r.Intn(100) >= chain {
+				u = r.Intn(v)
+			}
+			g.E = append(g.E, [2]int{u, v})
+		}
+		for k := 0; k < extra; k++ {
+			u, v := r.Intn(n), r.Intn(n)
+			if u != v {
+				g.E = append(g.E, [2]int{u, v})
+			}
+		}
+		return domCase{G: g, Root: 0}
+	}, checkDom)
 	vk.Enumerate(t, "dir-intervals-exh", total*maxN, gen, checkIntervals)
 	vk.Run(t, "dir-intervals", vk.Opts{Quick: 4000, Thorough: 80000, NoCrumb: true}, draw, checkIntervals)
 }
